@@ -344,7 +344,7 @@ func Build(g *Grammar, o BuildOpts) *Built {
 
 // NewCtx makes a fresh file, file set, reader and context for an input.
 func NewCtx(input string) (*parsley.Context, *text.File) {
-	f := text.NewFile("f", []byte(input))
+	f := newFileOwned("f", []byte(input))
 	fs := parsley.NewFileSet(f)
 	return parsley.NewContext(fs, text.NewReader(f)), f
 }
@@ -454,8 +454,20 @@ func cloneResult(p parsley.Parser) parsley.Parser {
 }
 
 // NewCtxAt places the input file after a file of preLen bytes (preLen 0: alone, base 1).
+// newFileOwned creates a file from a buffer the caller goes on using: the buffer (which has spare
+// capacity) is overwritten as soon as NewFile has returned. The file must not live in it.
+func newFileOwned(name string, data []byte) *text.File {
+	buf := append(make([]byte, 0, len(data)+8), data...)
+	f := text.NewFile(name, buf)
+	for i := range buf {
+		buf[i] = '#'
+	}
+	_ = append(buf, "########"...)
+	return f
+}
+
 func NewCtxAt(input string, preLen int) (*parsley.Context, *text.File, int) {
-	f := text.NewFile("f", []byte(input))
+	f := newFileOwned("f", []byte(input))
 	if preLen <= 0 {
 		return parsley.NewContext(parsley.NewFileSet(f), text.NewReader(f)), f, 1
 	}
